@@ -1857,7 +1857,11 @@ where
 
     let r = r_transcript.squeeze_challenge();
 
-    let mut acc_guard = guards[0].clone();
+    // An empty batch is vacuously valid.
+    let Some(first_guard) = guards.first() else {
+        return Ok(());
+    };
+    let mut acc_guard = first_guard.clone();
     for guard in guards.into_iter().skip(1) {
         acc_guard.scale(r);
         acc_guard.add_msm(guard);
